@@ -7,6 +7,7 @@ import DateutilVerif.Proofs.RRuleGenHelpers
 import DateutilVerif.Proofs.RRuleGenRebuild
 import DateutilVerif.Proofs.RRuleGenDaysets
 import DateutilVerif.Proofs.RRuleGenCached
+import DateutilVerif.Proofs.RRuleGenUse
 
 namespace C01
 open RRule RrPy RRule.Tables
@@ -135,5 +136,28 @@ example : ((Gen.rebuild { (default : Rule) with freq := 2 } {} 1997 9).bind fun 
     .ok (244, 250, [none, some 244, some 245, some 246, some 247, some 248, some 249, none]) := by decide +kernel
 example : ((Gen.rebuild { (default : Rule) with freq := 1 } {} 2024 2).bind fun s =>
       (Gen.mdayset { (default : Rule) with freq := 1 } s 2024 2 1).map fun t => (t.2.1, t.2.2)) = .ok (31, 60) := by decide +kernel
+
+/-! ### as `rrule._iter` uses them: no side condition left -/
+
+/-- for EVERY rule the constructor returns (any ambient first weekday `k`), the time-set method `_iter` selects by frequency
+    (`RRuleGen.genTimeset`: htimeset / mtimeset / stimeset) is the model's `gettimeset` -/
+theorem gen_gettimeset_of_construct (k : Int) (a : Args) (r : Rule) (h : constructW k a = .ok r) (self : RrPy.II)
+    (hour minute second : Int) :
+    RRuleGen.genTimeset r self hour minute second = gettimeset r hour minute second :=
+  RRuleGen.gen_gettimeset_of_construct k a r h self hour minute second
+
+/-- after ANY history of successful `rebuild` calls, rebuild for the cursor's year and ask for the day set of the cursor's
+    date (month 1..12): the method `_iter` selects by frequency (`RRuleGen.genDayset`: mdayset / wdayset / ddayset; YEARLY is
+    `gen_ydayset_eq_model`) raises what the model's `dayset` raises, or returns `(dset, start, end)` with the model's day set
+    `range(start, end)` and `dset[k] == k` on it -/
+theorem gen_dayset_after_rebuild (r : Rule) (hf : r.freq ≠ 0) (calls : List (Int × Int)) (st0 : RrPy.II)
+    (hh : RRuleGen.history r calls = .ok st0) (c : Cursor) (marg : Int) (st : RrPy.II)
+    (hst : Gen.rebuild r st0 c.year marg = .ok st) (hm : 1 ≤ c.month ∧ c.month ≤ 12) :
+    RRuleGen.DaysetAgrees (RRuleGen.genDayset r st c) (dayset r st.toInfo c) :=
+  RRuleGen.gen_dayset_after_rebuild r hf calls st0 hh c marg st hst hm
+
+-- a rule out of the constructor (HOURLY, start 09:30:15): the hour's time set
+example : (constructW 0 { freq := 4, dtstart := { y := 1997, m := 9, d := 2, hh := 9, mm := 30, ss := 15, us := 0 } }).toOption.map
+    (fun r => RRuleGen.genTimeset r {} 11 0 0) = some (.ok [(11, 30, 15)]) := by decide +kernel
 
 end C01
